@@ -191,6 +191,12 @@ def r14_6(ctx):
     from .c12 import external_parameter_checks
 
     external_parameter_checks(ctx)
+    # results of the other long-lived entry points are built in containers of the call itself
+    from .c18 import parse_result_is_private
+    from .c20 import merged_list_is_private
+
+    parse_result_is_private(ctx)
+    merged_list_is_private(ctx)
 
 
 def is_shared_transformer_call(n, name):
